@@ -365,7 +365,10 @@ class Flow:
                 ch = self.child(c, nid)
                 if ch is not None:
                     out = []
+                    taken = ch.cfg.reachable([ch.cfg.entry], edge_ok=scenario(ch)) if scenario is not None else ch.live
                     for r in ch.returns():
+                        if r not in taken:
+                            continue
                         v = ch.cfg.nodes[r].ast.value  # type: ignore[union-attr]
                         if v is None:
                             out.append(Org("expr", ch, ast.Constant(None), r))
